@@ -79,6 +79,16 @@ def run_vmops(binpath, ops, timeout=600):
             return None if x == "-" else tuple(int(t) for t in x.split(","))
         probes = [] if f[5] == "-" else [tuple(int(t) for t in q.split(":")) for q in f[5].split(";")]
         blocks = {} if f[6] == "-" else {b.rsplit(":", 2)[0]: int(b.rsplit(":", 2)[1]) for b in f[6].split(";")}
+        # anonymous blocks following a named block are its class-field initialiser functions: <name>__f<k>
+        if f[6] != "-":
+            owner, k = None, 0
+            for b in f[6].split(";"):
+                name, regs = b.rsplit(":", 2)[0], int(b.rsplit(":", 2)[1])
+                if name:
+                    owner, k = name, 0
+                elif owner is not None:
+                    blocks["%s__f%d" % (owner, k)] = regs
+                    k += 1
         rows.append({"op": f[1], "before": d(f[2]), "after": d(f[3]), "compl": f[4], "probes": probes, "blocks": blocks})
     return rows
 
@@ -336,7 +346,7 @@ def main():
     plans = []
     for k, (rl, sl, ll, rich, n) in enumerate(profiles):
         sub = random.Random(rng.getrandbits(64))
-        ops, entries = c07_gen.history(sub, n, rl, sl, ll, rich=rich)
+        ops, entries = c07_gen.history(sub, n, rl, sl, ll, rich=rich, burst=(30 if k == 2 else 0))
         plans.append((k, ops, entries, (rl, sl, ll)))
     with ThreadPoolExecutor(max_workers=4) as ex:
         results = list(ex.map(lambda pl: run_vmops(vm, pl[1], timeout=600), plans))
@@ -388,7 +398,8 @@ def main():
     for k in range(ns):
         sub = random.Random(rng.getrandbits(64))
         rl, sl, ll = sub.choice([sub.randrange(10, 40), 400]), sub.randrange(80, 400), 120
-        ops, entries = c07_gen.history(sub, nlen, rl, sl, ll, rich=False, fail_rate=0.6)
+        # the first search history survives 600 failed host constructions (field initialiser throws) in a row
+        ops, entries = c07_gen.history(sub, nlen, rl, sl, ll, rich=False, fail_rate=0.6, burst=(600 if k == 0 else 0))
         good = [i for i, e in enumerate(entries) if e.outcome == c07_gen.NORMAL]
         ops_b = ["ctx 1 %d %d %d" % (rl, sl, ll)] + [entries[i].op for i in good]
         splans.append((k, ops, entries, good, ops_b, (rl, sl, ll)))
